@@ -122,6 +122,52 @@ def wide_base(rng):
     return penguin_chain(rng, 6, max_atoms=8)
 
 
+def exp_impact_chain(rng):
+    """verifying rule 3 falsifies rules 1 and 2, verifying rule 2 falsifies rule 1, falsifying is free: every
+    c-representation needs impacts >= (1, 2, 4) — larger than the number of conditionals"""
+    names = rng.sample(NAMES, 4)
+    a, b, c, d = (V(x) for x in names)
+    conds = [(a, TOP), (And(b, Not(a)), c), (And(And(Not(a), c), Not(b)), d)]
+    sig = list(names)
+    if rng.random() < 0.4:
+        extra = [x for x in NAMES if x not in names][0]
+        sig.append(extra)
+        conds.append((V(extra), rng.choice([a, d, TOP])))
+    rng.shuffle(conds)
+    return sig, conds
+
+
+def disjunctive_antecedent_base(rng):
+    """facts (x_i|Top) in layer 0 plus rules of a later layer whose antecedent is a DISJUNCTION of two cases:
+    one case falsifies some of the facts, the other case triggers (and may falsify) another later-layer rule.
+    The cheapest verifying world of such a rule depends on the impacts, across layers."""
+    m = rng.randint(2, 3)
+    xs = NAMES[:m]
+    z, v = 'z', 'v'
+    sig = xs + [v, z]
+    if len(sig) < 6 and rng.random() < 0.7:
+        sig.append('u')
+    conds = [((V(x) if rng.random() < 0.85 else Not(V(x))), TOP) for x in xs]
+    lits = [c[0] for c in conds]
+    S = rng.sample(range(m), rng.randint(1, m))
+    case1 = Not(V(v))
+    for i in S:
+        case1 = And(case1, Not(lits[i]))              # falsifies the facts in S, v false
+    case2 = V(v)
+    for i in range(m):
+        if rng.random() < 0.7:
+            case2 = And(case2, lits[i])                 # facts hold, v true
+    conds.append((V(z), Or(case1, case2)))
+    if 'u' in sig:
+        conds.append((And(V('u'), Not(lits[rng.randrange(m)])), V(v)))   # verifying it falsifies a fact
+    else:
+        conds.append((Not(lits[rng.randrange(m)]), V(v)))
+    if rng.random() < 0.3:
+        conds.append((fml.rand_formula(rng, sig, 1, 0.0), fml.rand_formula(rng, sig, 1, 0.0)))
+    rng.shuffle(conds)
+    return sig, conds
+
+
 def multi_exception_base(rng):
     """class b with properties q_j; m exception classes e_j (penguin, kiwi, ...) each negating 'its'
     property: two layers, the upper one with several independent rules, so queries can force a TIE of
@@ -250,8 +296,8 @@ def gen_base(rng, want='strong', family=None, max_tries=400, **kw):
     'weak_or_strong' | 'any'."""
     for _ in range(max_tries):
         fam = family or rng.choices(
-            ['rand', 'chain', 'indep', 'd4', 'multiex', 'conjcons', 'wide', 'weak'],
-            [6, 1, 2, 0.5, 1.5, 1, 0.7 if want in ('strong', 'weak_or_strong', 'any') else 0,
+            ['rand', 'chain', 'indep', 'd4', 'multiex', 'conjcons', 'disjant', 'expchain', 'wide', 'weak'],
+            [6, 1, 2, 0.5, 1.5, 1, 0.6, 0.3, 0.7 if want in ('strong', 'weak_or_strong', 'any') else 0,
              3 if want in ('weak', 'weak_or_strong') else 0])[0]
         if fam == 'rand':
             sig, conds = rand_base(rng, **kw)
@@ -267,6 +313,10 @@ def gen_base(rng, want='strong', family=None, max_tries=400, **kw):
             sig, conds = conj_consequent_base(rng)
         elif fam == 'wide':
             sig, conds = wide_base(rng)
+        elif fam == 'expchain':
+            sig, conds = exp_impact_chain(rng)
+        elif fam == 'disjant':
+            sig, conds = disjunctive_antecedent_base(rng)
         else:
             sig, conds = weak_shape(rng)
         if conds and len(conds) < 12 and rng.random() < 0.12:
@@ -302,6 +352,11 @@ def tie_query(rng, sig, conds):
         p1, p2 = rng.sample(plain, 2)
         A = Or(strong_falsifier(*conds[j0]),
                And(And(conds[p1][1], Not(conds[p1][0])), And(conds[p2][1], Not(conds[p2][0]))))
+        if rng.random() < 0.5:
+            # a third class: exactly one plain rule falsified (cost 1), so that the candidates come in the
+            # cost order {p}:1 < {p1,p2}:2 < {j0}:k while the cardinalities are 1, 2, 1
+            p3 = rng.choice(plain)
+            A = Or(A, And(conds[p3][1], Not(conds[p3][0])))
         Bq = rng.choice([conds[p1][0], conds[j0][0], Or(conds[p1][0], conds[j0][0][1]),
                          fml.rand_formula(rng, sig, 1, 0.0)])
         return (Bq, A)
@@ -381,9 +436,11 @@ def gen_queries(rng, sig, conds, k, extra_atom_p=0.05, depth=2, p_tie=0.2, p_dee
             qs.append((B if rng.random() < 0.7 else Not(B), A))
         elif r < 0.46:                              # trivial/hostile
             x = fml.rand_formula(rng, s, 1, 0.0)
-            qs.append(rng.choice([(x, And(x, Not(x))), (BOT, x), (x, x), (TOP, x), (x, TOP),
-                                  (And(x, Not(x)), fml.rand_formula(rng, s, 1, 0.0)),
-                                  (x, BOT)]))
+            u = And(x, Not(x))                      # an unsatisfiable formula that is not the constant
+            qs.append(rng.choice([(x, u), (BOT, x), (x, x), (TOP, x), (x, TOP),
+                                  (u, fml.rand_formula(rng, s, 1, 0.0)),
+                                  (x, BOT), (Not(u), u), (u, u), (Not(x), x), (Not(BOT), BOT), (BOT, BOT),
+                                  (Or(x, Not(x)), Not(Or(x, Not(x))))]))
         else:
             qs.append((fml.rand_formula(rng, s, rng.randint(0, depth), 0.04),
                        fml.rand_formula(rng, s, rng.randint(0, depth), 0.04)))
